@@ -2,6 +2,7 @@ import Gallia.Model.ClientConc
 import Gallia.Proofs.Lemmas.ClientMulti
 import Gallia.Proofs.Lemmas.ClientMultiReply
 import Gallia.Gen.C05Locks
+import Gallia.Proofs.Lemmas.TransportReconnect
 /-
   C05 — Concurrent users of one UDS client never interleave their exchanges.
   Statements are about *every* accepted event trace, i.e. every schedule of any number of tasks.
@@ -755,5 +756,46 @@ theorem unbracketed_release_breaks_exclusion :
 end Examples
 
 end Multi
+
+/-! ### Reconnects against a target whose `connect` fails (`BaseTransport.reconnect`, called by `UDSClient.reconnect()` /
+    `reconnect_unsafe()` while the client mutex is held): the failing caller gets control back in bounded time - for EVERY
+    stream of connection outcomes (refused k times then accepted, refused forever, ...) - so that its next await point is the
+    `release` of `Round.reconnect` / of the request round (`progress_multi` (b)). -/
+section Reconnect
+open Gallia.TransportReconnect
+
+/-- `timeout=None` (what the client passes): exactly one connection attempt, whatever the target does afterwards; a
+    refused / failed attempt is the caller's error, after the duration of that one attempt -/
+theorem reconnect_without_timeout_single_attempt (outcome : Nat → ConnRes) (c : Nat) :
+    (clientReconnect outcome c).attempts = 1 ∧ (clientReconnect outcome c).elapsed = c ∧
+    (outcome 0 = .ok → (clientReconnect outcome c).out = .connected) ∧
+    (outcome 0 ≠ .ok → (clientReconnect outcome c).out = .error (outcome 0)) := by
+  unfold clientReconnect reconnect
+  cases h : outcome 0 <;> simp
+
+/-- with a deadline `T` the loop makes at most `T / 100 + 1` attempts and returns by `T`, for every outcome stream -/
+theorem reconnect_bounded (outcome : Nat → ConnRes) (c T : Nat) :
+    (reconnect outcome c (some T)).attempts ≤ T / 100 + 1 ∧ (reconnect outcome c (some T)).elapsed ≤ T := by
+  have h := rcLoop_bounded outcome c T 0 0
+  simpa [reconnect] using h
+
+/-- a target that stays away: the caller gets an error in both modes (the refusal itself, or the deadline) - never a hang -/
+theorem reconnect_unreachable_target_fails (outcome : Nat → ConnRes) (h : ∀ k, outcome k = .refused) (c : Nat) :
+    (reconnect outcome c none).out = .error .refused ∧ (reconnect outcome c none).attempts = 1 ∧
+    ∀ T, (reconnect outcome c (some T)).out = .deadline ∧ (reconnect outcome c (some T)).elapsed ≤ T := by
+  refine ⟨?_, ?_, fun T => ⟨rcLoop_refused_forever outcome h c T 0 0, (rcLoop_bounded outcome c T 0 0).2⟩⟩
+  · simp [reconnect, h 0]
+  · simp [reconnect, h 0]
+
+/-- non-vacuity: refused twice then accepted - one attempt and the refusal without a timeout, three attempts and a
+    connection by 350 ms with a 1 s deadline, the deadline after two attempts with 250 ms; refused forever with 520 ms -/
+example :
+    let o : Nat → ConnRes := fun k => if k < 2 then .refused else .ok
+    reconnect o 50 none = ⟨.error .refused, 1, 50⟩ ∧ reconnect o 50 (some 1000) = ⟨.connected, 3, 350⟩ ∧
+    reconnect o 50 (some 250) = ⟨.deadline, 2, 250⟩ ∧ reconnect (fun _ => .refused) 50 (some 520) = ⟨.deadline, 4, 520⟩ := by
+  decide +kernel
+
+end Reconnect
+
 
 end Gallia.C05
